@@ -10,9 +10,9 @@ Separate Extraction
   BinNat.N.add BinNat.N.mul BinNat.N.div_eucl BinInt.Z.of_N BinInt.Z.to_N
   Strings.Byte.of_N Strings.Byte.to_N
   Frame.sock_make_header Frame.udp_make_header Frame.ws_make_header
-  Limit.all_transports Limit.pinned_sites Limit.repaired_sites Limit.covers Limit.framed
-  Limit.admission Limit.serve Limit.truthful Limit.pinned_guard Limit.rejected
+  Limit.all_transports Limit.pinned_sites Limit.original_sites Limit.covers Limit.framed
+  Limit.admission Limit.serve Limit.truthful Limit.rejected
   Limit.reply_of Limit.client_decode Limit.caller_outcome Limit.too_large_text
   Limit.sock_reject_frame Limit.ws_reject_msg Limit.udp_reject_dgram
-  Limit.sock_server_verdict Limit.ws_server_verdict Limit.udp_server_verdict Limit.http_server_verdict
+  Limit.sock_server_verdict Limit.ws_server_verdict Limit.udp_recv Limit.udp_server_verdict Limit.http_server_verdict
   Limit.sock_client Limit.udp_client Limit.ws_client.
